@@ -24,7 +24,7 @@ META = {
                     "rejection loops bounded by a logical draw budget; exceeding it with natural draws is skipped (inconclusive for that case)"],
     "deciding": ["trace:placement", "trace:count-conservation", "trace:quantile", "determinism:seeded-rerun"],
 }
-META["added"] = 'Added: hostile legal-draw schedules, primitives on arrays up to 2000 bins, Fortran / transposed / strided tables and re-scaled forecasts, injected draws exactly on the lower cumulative boundary of distinct cells (0.0 for the first positive cell) for the binary and Brier simulators, weights bound (4(k+1)+2n) eps. single-precision rate tables, one injected row per simulation for the binary tests, array-valued scale factors. round-rate forecasts producing near-ties of simulated and observed scores.'
+META["added"] = 'Added: hostile legal-draw schedules, primitives on arrays up to 2000 bins, Fortran / transposed / strided tables and re-scaled forecasts, injected draws exactly on the lower cumulative boundary of distinct cells (0.0 for the first positive cell) for the binary and Brier simulators, weights bound (4(k+1)+2n) eps. single-precision rate tables, one injected row per simulation for the binary tests, array-valued scale factors. round-rate forecasts producing near-ties of simulated and observed scores. observed events in zero-rate bins.'
 MANIFEST = {
     "technique": "RNG boundary log + hostile legal-draw injection + simulator boundary log, offline inverse-CDF trace checker with exact comparisons; seeded re-run determinism with scrambled global RNG state",
     "level_text": "Every simulator call made by the 7 gridded tests on generated inputs is recorded (weights, draws, returned counts) and re-derived offline by exact comparison; hostile legal draws (0, every cumulative boundary +-1ulp, largest double below 1) are injected through the RNG boundary and through random_numbers=; count conservation, zero-rate exclusion, quantile identity and seed determinism (incl. seed 0, after scrambling the global RNG) are decided on the trace.",
@@ -458,7 +458,8 @@ def run(ctx):
     n = (180000 if thorough else 400) // ctx.nshards
     for j in range(n):
         r = ctx.rng("c06", j)
-        case = gridcases.gen_case(r, max_cells=40, max_mag=6, max_events=60, events_in_zero=False,
+        # every sixth case: an observed event lies in a zero-rate bin (the prescribed number of active cells still counts that cell)
+        case = gridcases.gen_case(r, max_cells=40, max_mag=6, max_events=60, events_in_zero=(j % 6 == 2), zero_frac=(0.2 if j % 6 == 2 else None),
                                   rate_lo=-6 if j % 2 else -12, rate_hi=2)
         seeds = [0, int(r.integers(1, 10 ** 6))]
         for t in PTESTS + BTESTS:
